@@ -73,6 +73,8 @@ TRANSPARENT = {
     "std::option::Option::ok_or_else": (0, ()),
     "std::option::Option::ok_or": (0, ()),
     "std::option::Option::take": (0, ()),
+    "std::result::Result::ok": (0, ()),           # Ok(x) -> Some(x): the payload stays at field 0
+    "std::option::Option::flatten": (0, ()),
     "std::collections::HashMap::values": (0, ()),
     "std::collections::HashMap::iter": (0, ()),
     "core::slice::iter": (0, ()),
@@ -1051,6 +1053,29 @@ class Explorer:
                     parent[nxt] = cur
                     dq.append(nxt)
         return n
+
+    def entry_env(self, start):
+        """facts that hold whenever control arrives at `start` (from the function entry or around a loop): the intersection of the
+        environments of every arrival.  A walk that begins in the middle of a function can be seeded with it (env0=...), so that a
+        loop flag initialised before the loop and tested at its head (`while !done`) is known at a block inside the loop."""
+        cache = self.fn.__dict__.setdefault("_entry_env", {})
+        if start in cache:
+            return dict(cache[start])
+        arrivals = []
+
+        def step(b, st, env):
+            if b == start:
+                arrivals.append(frozenset(env.items()))
+            return st
+        try:
+            self.walk(0, 0, step)
+        except RuntimeError:
+            arrivals = []
+        common = None
+        for a in arrivals:
+            common = a if common is None else (common & a)
+        cache[start] = dict(common or ())
+        return dict(cache[start])
 
     @staticmethod
     def _path(parent, cur):
